@@ -60,30 +60,25 @@ theorem mem_exprs_iff {f : EFile} {e : List Text} :
     rw [hk] at hv
     exact ⟨i, hi, it.value, hv, rfl⟩
 
-theorem joinedNonEmpty_iff {l : List String} (h : ∀ x ∈ l, x ≠ "") : joinedNonEmpty l = true ↔ l ≠ [] := by
+theorem joinedNonEmpty_iff {l : List String} (h : ∀ x ∈ l, isBlankStr x = false) : joinedNonEmpty l = true ↔ l ≠ [] := by
   match l, h with
   | [], _ => simp [joinedNonEmpty]
-  | [x], h => simp [joinedNonEmpty, h x (by simp)]
-  | _ :: _ :: _, _ => simp [joinedNonEmpty]
+  | x :: xs, h => simp [joinedNonEmpty, h x (by simp)]
 
-theorem hasCopyright_iff (hne : NoEmptyNotice c g tree) {p : List String} (hp : CoveredT c tree p) :
+/-- a covered file "has copyright" in the report exactly when a non-blank copyright line is attributed to
+    it (no hypothesis: blank lines are not notices, however many there are) -/
+theorem hasCopyright_iff' {p : List String} :
     ((fileOf c g tree p).toCov c).hasCopyright = true ↔ HasNotice c g tree p := by
-  have hall : ∀ x ∈ (fileOf c g tree p).infos.flatMap (·.cpr), x ≠ "" := by
-    intro x hx
-    obtain ⟨it, hit, hk, rfl⟩ := mem_cprItems_iff.mp hx
-    exact hne p it hp ((items_iff p it).mp hit) hk
-  simp only [EFile.toCov]
-  rw [joinedNonEmpty_iff hall]
+  simp only [EFile.toCov, joinedNonEmpty, List.any_eq_true, Bool.not_eq_true']
   constructor
-  · intro hnil
-    obtain ⟨x, hx⟩ := List.exists_mem_of_ne_nil _ hnil
+  · rintro ⟨x, hx, hb⟩
     obtain ⟨it, hit, hk, rfl⟩ := mem_cprItems_iff.mp hx
-    exact ⟨it, (items_iff p it).mp hit, hk, hall _ hx⟩
-  · rintro ⟨it, hit, hk, _⟩ hnil
-    have : it.value ∈ (fileOf c g tree p).infos.flatMap (·.cpr) :=
-      mem_cprItems_iff.mpr ⟨it, (items_iff p it).mpr hit, hk, rfl⟩
-    rw [hnil] at this
-    cases this
+    exact ⟨it, (items_iff p it).mp hit, hk, hb⟩
+  · rintro ⟨it, hit, hk, hb⟩
+    exact ⟨it.value, mem_cprItems_iff.mpr ⟨it, (items_iff p it).mpr hit, hk, rfl⟩, hb⟩
+
+theorem hasCopyright_iff (_hne : NoEmptyNotice c g tree) {p : List String} (_hp : CoveredT c tree p) :
+    ((fileOf c g tree p).toCov c).hasCopyright = true ↔ HasNotice c g tree p := hasCopyright_iff'
 
 theorem hasLicence_iff (p : List String) :
     (∃ e ∈ ((fileOf c g tree p).toCov c).exprs, e ≠ []) ↔ HasLicence c g tree p := by
@@ -105,16 +100,16 @@ theorem used_iff (k : Text) : Used (projectOf c g tree).files k ↔ UsedT c g tr
     exact ⟨_, _, mem_projectFiles.mpr ⟨p, hp, rfl⟩, (readable_iff p).mpr hr, rfl, _,
       mem_exprs_iff.mpr ⟨it, (items_iff p it).mpr hit, hkind, rfl⟩, hk⟩
 
-theorem clauseA_tree (hne : NoEmptyNotice c g tree) : ClauseA (projectOf c g tree) ↔ TreeClauseA c g tree := by
+theorem clauseA_tree : ClauseA (projectOf c g tree) ↔ TreeClauseA c g tree := by
   unfold ClauseA TreeClauseA
   constructor
   · intro h p hp hr
     have := h _ (mem_projectFiles.mpr ⟨p, hp, rfl⟩) ((readable_iff p).mpr hr)
-    exact ⟨(hasCopyright_iff hne hp).mp this.1, (hasLicence_iff p).mp this.2⟩
+    exact ⟨(hasCopyright_iff' (p := p)).mp this.1, (hasLicence_iff p).mp this.2⟩
   · intro h f hf hr
     obtain ⟨p, hp, rfl⟩ := mem_projectFiles.mp hf
     have := h p hp ((readable_iff p).mp hr)
-    exact ⟨(hasCopyright_iff hne hp).mpr this.1, (hasLicence_iff p).mpr this.2⟩
+    exact ⟨(hasCopyright_iff' (p := p)).mpr this.1, (hasLicence_iff p).mpr this.2⟩
 
 theorem clauseD_tree : ClauseD (projectOf c g tree) ↔ TreeClauseD c g tree := by
   unfold ClauseD TreeClauseD
@@ -136,10 +131,10 @@ theorem clauseC_tree : ClauseC tbl (projectOf c g tree) ↔ TreeClauseC tbl c g 
   rfl
 
 /-- clauses (a)–(d) over the abstract project of the composed model are clauses (a)–(d) over the tree -/
-theorem compliant_iff_tree (hne : NoEmptyNotice c g tree) :
+theorem compliant_iff_tree :
     Compliant tbl (projectOf c g tree) ↔ TreeCompliant tbl c g tree := by
   unfold Compliant TreeCompliant
-  rw [clauseA_tree hne, clauseB_tree, clauseC_tree, clauseD_tree]
+  rw [clauseA_tree, clauseB_tree, clauseC_tree, clauseD_tree]
 
 end Model
 
@@ -383,7 +378,9 @@ theorem usedBy_iff_tree (k q : Text) :
 
 /-- the hypothesis `NoEmptyNotice` can be read off the model's output -/
 theorem noEmptyNotice_of_B (h : noEmptyNoticeB (filesOf c g tree) = true) : NoEmptyNotice c g tree := by
-  intro p it hp hit hk hv
+  intro p it hp hit hk
+  cases hv : isBlankStr it.value
+  · rfl
   simp only [noEmptyNoticeB, List.all_eq_true] at h
   have hf : fileOf c g tree p ∈ filesOf c g tree := by
     simp only [filesOf, coveredFiles, List.mem_map]
